@@ -56,7 +56,7 @@ def shipped_scenarios(rnd, k):
                 p = rnd.randrange(1, len(w[j]) - 1)
                 w[j] = w[j][:p] + w[j][p + 1:]
             qtext = " ".join(w)
-        out.append(dict(entry=rnd.choice(["universal", "universal", "cli"]), limit=rnd.choice([1, 3, 5, 10, 25]), nlp=rnd.random() < 0.7,
+        out.append(dict(entry=rnd.choice(["universal"] * 9 + ["cli"]), limit=rnd.choice([1, 3, 5, 10, 25]), nlp=rnd.random() < 0.7,
                         fuzzy=rnd.random() < 0.7, thr=rnd.choice([0, -30]), ponly=False, pboost=False, allplat=rnd.random() < 0.2,
                         plats=[], nocross=False, boost=rnd.random() < 0.3, query="raw", raw=qtext, corpus="shipped"))
         s = out[-1]
